@@ -898,6 +898,8 @@ def r1_pass_through(corpus: Corpus, rep: Report, tier: str):
                 k = f"{fn_.fq}|class test|{short(c, 70)}"
                 if kind[0] == "tokens":
                     rep.ok("C17.R1", k, m.site(c), kind[1])
+                elif kind[0] == "badsplit":
+                    rep.violation("C17.R1", k, m.site(c), f"`{short(c, 60)}` tests class names that {kind[1]}: HTML separates class names by any ASCII white space, so `<div class=\"{c.left.value}\\ttip\">` (TAB, new line or form feed between the names) is one glued name, is not recognised as class {c.left.value!r} and passes through as raw HTML instead of being converted like the directive")
                 else:
                     rep.violation("C17.R1", k, m.site(c), f"`{short(c, 60)}` is a substring test on {kind[1]}: class=\"{c.left.value}-x\" / \"my{c.left.value}\" count as class {c.left.value!r}, so HTML that is not the recognised form is converted (or its first child taken as the title) instead of passing through")
     if n_cls < 1:
@@ -1089,13 +1091,15 @@ def _class_expr_kind(cx: Ctx, e: ast.expr, var: str | None, fn: FunctionInfo | N
         if len(rets) != 1:
             raise Unsupported(f"Attribute.{e.attr} has {len(rets)} returns")
         v = rets[0].value
+        if isinstance(v, (ast.ListComp, ast.GeneratorExp)) and len(v.generators) == 1 and isinstance(v.elt, ast.Name) and isinstance(v.generators[0].target, ast.Name) and v.elt.id == v.generators[0].target.id and all(unparse(c_) == v.elt.id for c_ in v.generators[0].ifs):
+            v = v.generators[0].iter  # `[n for n in <split> if n]`: empty strings dropped, the tokens are those of the split
         inner = _self_class_text(v.func.value) if isinstance(v, ast.Call) and isinstance(v.func, ast.Attribute) else None
         if isinstance(v, ast.Call) and isinstance(v.func, ast.Attribute) and v.func.attr == "split" and not v.args and not v.keywords and inner:
             return ("tokens", f"Attribute.{e.attr} = self['class'].split()")
         if _self_class_text(v):
             return ("text", f"Attribute.{e.attr}, which returns the attribute text unsplit")
         if isinstance(v, ast.Call) and isinstance(v.func, ast.Attribute) and v.func.attr == "split" and inner:
-            return ("text", f"Attribute.{e.attr}, which splits on {short(v.args[0], 20) if v.args else '?'} rather than on white space")
+            return ("badsplit", f"Attribute.{e.attr} splits on {short(v.args[0], 20) if v.args else '?'} only, not on any white space")
         if e.attr == "classes":
             raise Unsupported(f"Attribute.classes returns `{short(v, 50)}`")
         return None
@@ -1801,7 +1805,15 @@ def _parser_quirks_covered(cx: Ctx, rep: Report) -> None:
     else:
         fcfg = get_cfg(fm)
         verdict = None
-        for w in fm.local_nodes():
+        # the loop may sit in feed() itself or in a method of the class that feed() calls (before close)
+        hosts: list[tuple[FunctionInfo, ast.stmt | None]] = [(fm, None)]
+        for c in fm.local_nodes():
+            if isinstance(c, ast.Call) and isinstance(c.func, ast.Attribute) and dotted(c.func.value) == "self":
+                hm = cx.corpus.lookup_method(ci, c.func.attr)
+                if hm is not None and hm.module is ph and hm is not fm:
+                    hosts.append((hm, fcfg.stmt_of(c)))
+        for host, call_st in hosts:
+          for w in host.local_nodes():
             if not isinstance(w, (ast.While, ast.For)):
                 continue
             inner = [x for st in w.body for x in ast.walk(st)]
@@ -1813,10 +1825,24 @@ def _parser_quirks_covered(cx: Ctx, rep: Report) -> None:
             keeps = any(isinstance(c, ast.Call) and isinstance(c.func, ast.Attribute) and (c.func.attr == "handle_data" or c.func.attr.startswith("nest_")) and any(isinstance(a, ast.Constant) and a.value == "&#" for a in ast.walk(c)) for c in body)
             advances = any(isinstance(st, ast.Assign) and unparse(st.targets[0]) == "self.rawdata" and isinstance(st.value, ast.Subscript) and isinstance(st.value.slice, ast.Slice) and isinstance(st.value.slice.lower, ast.Constant) and st.value.slice.lower.value == 2 for st in body)
             resumes = [c for c in inner if isinstance(c, ast.Call) and unparse(c.func) in ("super().feed", "self.goahead", "HTMLParser.feed")]
-            resumes_all = bool(resumes) and not any(c in body for c in resumes if False) and any(fcfg.stmt_of(c) in w.body for c in resumes)
+            hcfg = get_cfg(host)
+            resumes_all = bool(resumes) and any(hcfg.stmt_of(c) in w.body for c in resumes)
             closes = [c for c in fm.local_nodes() if isinstance(c, ast.Call) and unparse(c.func) in ("self.close", "super().close")]
-            before_close = bool(closes) and all(fcfg.dominates(w, fcfg.stmt_of(c)) for c in closes)
-            missing = [nm for nm, ok_ in (("the `&#` is kept as data", keeps), ("the input is advanced past it", advances), ("parsing is resumed on every round of the loop", resumes_all), ("the loop runs before close()", before_close)) if not ok_]
+            anchor = w if host is fm else call_st
+            before_close = bool(closes) and all(fcfg.dominates(anchor, fcfg.stmt_of(c)) for c in closes)
+            # progress detection: the loop ends only when a whole round (step over + resumed parse) left the buffer unchanged,
+            # i.e. the snapshot compared with self.rawdata is taken before the step and not overwritten afterwards
+            progress = True
+            if isinstance(w, ast.While) and isinstance(w.test, ast.Compare) and len(w.test.ops) == 1 and isinstance(w.test.ops[0], ast.NotEq):
+                sides = [w.test.left, w.test.comparators[0]]
+                snap = next((x.id for x in sides if isinstance(x, ast.Name)), None)
+                if snap is not None and any(unparse(x) == "self.rawdata" for x in sides):
+                    adv = [st for st in body if isinstance(st, ast.Assign) and any(unparse(t_) == "self.rawdata" for t_ in st.targets)]
+                    stores = [x for x in inner if isinstance(x, ast.Name) and x.id == snap and isinstance(x.ctx, ast.Store)]
+                    taken = [x for x in stores if isinstance(parent(x), ast.Assign) and unparse(parent(x).value) == "self.rawdata" and parent(x) in w.body]
+                    late = [x for x in stores if x not in taken]
+                    progress = bool(taken) and not late and all(hcfg.dominates(parent(taken[0]), hcfg.stmt_of(a_)) for a_ in adv)
+            missing = [nm for nm, ok_ in (("the `&#` is kept as data", keeps), ("the input is advanced past it", advances), ("parsing is resumed on every round of the loop", resumes_all), ("the loop runs before close()", before_close), ("the loop goes on while a round made progress (the buffer snapshot compared in its condition is overwritten after stepping over the `&#`, so a round that only steps - `&#&# </div>` - ends the loop and close() reports the rest, tags included, as text)", progress)) if not ok_]
             verdict = missing
         if verdict is None:
             rep.violation("C17.R1", k, fm.site(), f"html.parser stops for good at an `&#` that does not start a character reference and close() then reports the whole rest - tags included - as data; {ci.name}.feed has no resume loop for it: '<div class=\"admonition\">\\nA &# B\\n</div>' yields the admonition plus a stray raw `</div>`, and a title `R&#D` loses title and body")
@@ -3781,6 +3807,16 @@ def mutants(corpus: Corpus):
             rf = next((s_ for s_ in wl.body if isinstance(s_, ast.Expr) and unparse(s_.value.func if isinstance(s_.value, ast.Call) else s_) == "super().feed"), None)
             if rf is not None:
                 add("c17-amp-hash-not-refed", "C17.R1", splice(psrc, rf, "pass"), "stalled `&#`", rel_=phm.rel, note="weakened: parsing is not resumed")
+    if hfeed2 is not None:
+        adv_ = find_stmt(hfeed2, lambda s_: isinstance(s_, ast.Assign) and len(s_.targets) == 1 and unparse(s_.targets[0]) == "self.rawdata" and isinstance(s_.value, ast.Subscript) and isinstance(s_.value.value, ast.Name))
+        if adv_ is not None:
+            snap_ = adv_.value.value.id
+            add("c17-amp-hash-loop-ends-after-a-step-only-round", "C17.R1", splice(psrc, adv_.targets[0], f"self.rawdata = {snap_}"), "stalled `&#`", rel_=phm.rel, note="seed class: snapshot overwritten after the step (`&#&# </div>`)")
+    apc = corpus.cls("parsers.parse_html:Attribute").methods.get("classes")
+    if apc is not None:
+        sp2 = find_node(apc, lambda n: isinstance(n, ast.Call) and isinstance(n.func, ast.Attribute) and n.func.attr == "split" and not n.args)
+        if sp2 is not None:
+            add("c17-classes-split-on-space-only", "C17.R1", splice(psrc, sp2, "[n for n in " + ast.get_source_segment(psrc, sp2.func) + '(" ") if n]'), "class test", rel_=phm.rel, note="seed class: TAB/LF separated class names glued")
     pe_ = hcls.methods.get("parse_endtag")
     if pe_ is not None:
         ifn = find_stmt(pe_, lambda s_: isinstance(s_, ast.If))
